@@ -37,6 +37,11 @@ type c05Cell struct {
 	// ForeignCwd: the test process runs with a working directory that is not the package directory (a test binary started
 	// from the repository root, a test that changed directory)
 	ForeignCwd bool `json:"foreign_cwd,omitempty"`
+	// Shuffle: the run passes -test.shuffle (on / a seed): the order of tests is none of the mode table's inputs
+	Shuffle string `json:"shuffle,omitempty"`
+	// FailedBefore: before the call of the cell, the same test made a call that failed (a missing snapshot through a Config
+	// with Update(false)): the test has failed already - the mode table does not ask
+	FailedBefore bool `json:"test_already_failed_before_the_call,omitempty"`
 }
 
 const unsetEnv = "<unset>"
@@ -96,6 +101,8 @@ func allC05Cells(seed int) []c05Cell {
 									c.CIEnv = []string{"", "", "BUILD_NUMBER=17", "CONTINUOUS_INTEGRATION=true", "RUN_ID=4", "CI_NAME=codeship", "GITHUB_ACTIONS=true", "BUILD_ID=9"}[(i+seed)%8]
 								}
 								c.ForeignCwd = (i+seed)%5 == 3
+								c.Shuffle = []string{"", "", "on", "", "1234567", ""}[(i+seed)%6]
+								c.FailedBefore = (i+seed)%4 == 3
 								switch {
 								case (api == "snap" || api == "json" || api == "yaml") && (i+seed)%4 == 1:
 									c.Pre = "crlf"
@@ -181,12 +188,17 @@ func checkC05(c c05Cell) error {
 	case "false":
 		cfgCut.Update = boolp(false)
 	}
+	inRun := false
 	alpha := func(cutValue string, withCut bool, cfgForCut Cfg) *Node {
 		n := &Node{Steps: []Step{
 			{Op: "sub", Name: "zz", Steps: []Step{{Op: "call", API: "snap", Cfg: cfgM, Value: "zz value"}}},
 			{Op: "sub", Name: "aa", Steps: []Step{{Op: "call", API: "snap", Cfg: cfgM, Value: "aa value\nline 2"}}},
 		}}
 		if withCut {
+			if c.FailedBefore && inRun {
+				// (only in the run of the cell: a snapshot that was never recorded, addressed through Update(false))
+				n.Steps = append(n.Steps, Step{Op: "call", API: "snap", Cfg: Cfg{Dir: strp(dir), Filename: "neverrecorded", Update: boolp(false)}, Value: "x", Tag: "failing_first"})
+			}
 			n.Steps = append(n.Steps, Step{Op: "call", API: c.API, Cfg: cfgForCut, Value: cutValue, Tag: "cut"})
 		}
 		return n
@@ -251,6 +263,7 @@ func checkC05(c c05Cell) error {
 	d0 := snapDir(root)
 
 	// the run of the cell
+	inRun = true
 	run := Scenario{Tests: map[string]*Node{"TestAlpha": alpha(c.Val, true, cfgCut)}, Clean: CleanSpec{Call: true, Sort: c.Sort}}
 	cwd := ""
 	if c.ForeignCwd {
@@ -259,7 +272,7 @@ func checkC05(c c05Cell) error {
 		ageDir(root)
 		d0 = snapDir(root)
 	}
-	res, out, err := runProgram(RunOpts{Pkg: ".", CI: c.CI, CIEnv: c.CIEnv, Cwd: cwd, Upd: c.Upd, UpdSet: c.Upd != unsetEnv}, run)
+	res, out, err := runProgram(RunOpts{Pkg: ".", CI: c.CI, CIEnv: c.CIEnv, Cwd: cwd, Upd: c.Upd, UpdSet: c.Upd != unsetEnv, Shuffle: c.Shuffle}, run)
 	if err != nil {
 		return fmt.Errorf("run: %v (%s)", err, clip(out))
 	}
@@ -438,6 +451,12 @@ func classifyC05(c c05Cell) ([]string, bool) {
 	}
 	if c.ForeignCwd {
 		cls = append(cls, "foreign_working_directory")
+	}
+	if c.Shuffle != "" {
+		cls = append(cls, "test_shuffle")
+	}
+	if c.FailedBefore {
+		cls = append(cls, "test_already_failed_before_the_call")
 	}
 	return cls, nt
 }
